@@ -60,6 +60,22 @@ theorem chanPush_inv (cfg : Cfg) (hc : cfg.allChecked = true) {w : World} (h : I
       have hl := popLive_live w _ r rest hp
       exact schedule_inv cfg hb (chans_frame h _) _ _ _ _ _ (.chanRead c) hl.symm (Nat.le_refl _) (noSleep (by intro s d; simp))
 
+theorem superPush_inv (cfg : Cfg) (hc : cfg.allChecked = true) {w : World} (h : Inv w) (c : Nat) (x : Val) :
+    Inv (superPush cfg w c x) := by
+  obtain ⟨-, -, hps, -, -, -, -, -, hb, -, -⟩ := allChecked_fields hc
+  unfold superPush
+  split
+  · exact h
+  · rw [hps]
+    cases hp : popLive true w (w.chans c).rp with
+    | mk o rest =>
+      cases o with
+      | none => exact chans_frame h _
+      | some r =>
+        simp only
+        have hl := popLive_live w _ r rest hp
+        exact schedule_inv cfg hb (chans_frame h _) _ _ _ _ _ (.chanRead c) hl.symm (Nat.le_refl _) (noSleep (by intro s d; simp))
+
 theorem chanPopWake_inv (cfg : Cfg) (hc : cfg.allChecked = true) {w : World} (h : Inv w) (c : Nat) (items : List Val) :
     Inv (chanPopWake cfg w c items) := by
   obtain ⟨-, -, -, hps, -, -, -, -, hb, -, -⟩ := allChecked_fields hc
@@ -298,6 +314,7 @@ theorem step_inv (cfg : Cfg) (hc : cfg.allChecked = true) {w : World} (h : Inv w
         · split <;> exact h1
         · exact h1
   | procFlag k x => exact h.frame rfl rfl rfl (fun _ => Nat.le_refl _) (Nat.le_refl _)
+  | superPush c x => exact superPush_inv cfg hc h c x
   | thrWait f k => exact h.frame rfl rfl rfl (fun _ => Nat.le_refl _) (Nat.le_refl _)
   | thrDone k v e =>
     have htc := allChecked_threadCheck hc
